@@ -151,15 +151,18 @@ def cbrtC1 : Dec := { neg := true, coeff := 46946116, exp := -8 }
 def cbrtC2 : Dec := { coeff := 1072302, exp := -6 }
 def cbrtC3 : Dec := { coeff := 3812513, exp := -7 }
 
-/-- repeated `ed.Mul(&z, &z, k)` while `test z` holds; returns the number of steps taken.
+/-- repeated `ed.Mul(&z, &z, k)` while `test z` holds, each step followed by
+`if err := ed.Err(); err != nil { return 0, err }` (a failed step leaves `z` as it is: without the test the loop
+would never end); `.inr` = the loop ended, with the number of steps taken, `.inl` = the error exit.
 `none` when the fuel runs out (a hang in the Go code). -/
-def scaleLoop (test : Dec → Bool) (k : Dec) : Nat → ED → Dec → Nat → Option (ED × Dec × Nat)
+def scaleLoop (test : Dec → Bool) (k : Dec) : Nat → ED → Dec → Nat → Option (Sum ErrKind (ED × Dec × Nat))
   | 0, _, _, _ => none
   | fuel+1, e, z, n =>
     if test z then
       let r := e.step z (fun c => mulOp c z k)
+      if r.1.failed then some (.inl r.1.errOf) else
       scaleLoop test k fuel r.1 r.2 (n + 1)
-    else some (e, z, n)
+    else some (.inr (e, z, n))
 
 def mulN (k : Dec) : Nat → ED → Dec → ED × Dec
   | 0, e, z => (e, z)
@@ -191,10 +194,12 @@ def cbrtOp (c : Ctx) (x : Dec) : Option Out :=
     let ed : ED := { c := nc }
     match scaleLoop (fun z => z.cmp decOneEighth < 0) decEight 400000 ed ax 0 with
     | none => none
-    | some (ed, z, down) =>
+    | some (.inl er) => some (failOut er)
+    | some (.inr (ed, z, down)) =>
     match scaleLoop (fun z => z.cmp decOne > 0) decOneEighth 400000 ed z 0 with
     | none => none
-    | some (ed, z, up) =>
+    | some (.inl er) => some (failOut er)
+    | some (.inr (ed, z, up)) =>
       let z0 := z
       let r1 := ed.step z (fun c => mulOp c z cbrtC1)
       let r2 := r1.1.step r1.2 (fun c => addOp c r1.2 cbrtC2 false)
